@@ -5,7 +5,7 @@
 use crate::facade::{spawn, thread_rng, yield_now, Condvar, Mutex, Rng};
 use crate::reg;
 use futures_buffered::{
-    join_all, BufferedStreamExt, FuturesOrdered, FuturesOrderedBounded, FuturesUnordered, FuturesUnorderedBounded, JoinAll, MergeBounded,
+    join_all, try_join_all, BufferedStreamExt, BufferedTryStreamExt, FuturesOrdered, FuturesOrderedBounded, FuturesUnordered, FuturesUnorderedBounded, JoinAll, MergeBounded,
     MergeUnbounded,
 };
 use futures_core::Stream;
@@ -30,7 +30,7 @@ pub static EARLY_DROPS: AtomicU64 = AtomicU64::new(0);
 pub static FRESH_WAKERS: AtomicU64 = AtomicU64::new(0);
 pub static PARKS: AtomicU64 = AtomicU64::new(0);
 pub static ORDER_HASHES: std::sync::Mutex<Option<std::collections::HashSet<u64>>> = std::sync::Mutex::new(None);
-pub static SUBJECTS: [AtomicU64; 9] = [AtomicU64::new(0), AtomicU64::new(0), AtomicU64::new(0), AtomicU64::new(0), AtomicU64::new(0), AtomicU64::new(0), AtomicU64::new(0), AtomicU64::new(0), AtomicU64::new(0)];
+pub static SUBJECTS: [AtomicU64; 12] = [AtomicU64::new(0), AtomicU64::new(0), AtomicU64::new(0), AtomicU64::new(0), AtomicU64::new(0), AtomicU64::new(0), AtomicU64::new(0), AtomicU64::new(0), AtomicU64::new(0), AtomicU64::new(0), AtomicU64::new(0), AtomicU64::new(0)];
 
 // plain flags for statistics only (relaxed; never used for synchronisation)
 static IN_POLL_FLAG: std::sync::atomic::AtomicBool = std::sync::atomic::AtomicBool::new(false);
@@ -227,6 +227,48 @@ impl Stream for ChanStream {
 // ---------------------------------------------------------------------------------------------
 // subjects
 
+/// Try-future: child `fail` resolves to `Err(id)`, the others to `Ok(id)`.
+struct TryFut {
+    inner: ChanFut,
+    fail: bool,
+}
+impl Future for TryFut {
+    type Output = Result<usize, usize>;
+    fn poll(mut self: Pin<&mut Self>, cx: &mut Context<'_>) -> Poll<Result<usize, usize>> {
+        let fail = self.fail;
+        match Pin::new(&mut self.inner).poll(cx) {
+            Poll::Ready(i) => Poll::Ready(if fail { Err(i) } else { Ok(i) }),
+            Poll::Pending => Poll::Pending,
+        }
+    }
+}
+/// Unit future for for_each_concurrent (completion is visible in the channel's `done` flag).
+struct UnitFut(ChanFut);
+impl Future for UnitFut {
+    type Output = ();
+    fn poll(mut self: Pin<&mut Self>, cx: &mut Context<'_>) -> Poll<()> {
+        Pin::new(&mut self.0).poll(cx).map(|_| ())
+    }
+}
+/// Upstream of try_buffered_unordered: `Ok(future)` items.
+struct TrySource {
+    futs: Vec<Option<TryFut>>,
+    next: usize,
+}
+impl Stream for TrySource {
+    type Item = Result<TryFut, usize>;
+    fn poll_next(mut self: Pin<&mut Self>, _cx: &mut Context<'_>) -> Poll<Option<Self::Item>> {
+        let i = self.next;
+        if i < self.futs.len() {
+            self.next += 1;
+            Poll::Ready(self.futs[i].take().map(Ok))
+        } else {
+            Poll::Ready(None)
+        }
+    }
+}
+impl Unpin for TrySource {}
+
 /// Upstream of the adapters: hands out the futures one by one, always ready.
 struct FutSource {
     futs: Vec<Option<ChanFut>>,
@@ -251,6 +293,9 @@ enum Subj {
     Bu(Pin<Box<futures_buffered::BufferUnordered<FutSource>>>),
     Bo(Pin<Box<futures_buffered::BufferedOrdered<FutSource>>>),
     Ja(JoinAll<ChanFut>),
+    Tja(futures_buffered::TryJoinAll<TryFut>),
+    Fec(Pin<Box<dyn Future<Output = ()>>>),
+    Tbu(Pin<Box<futures_buffered::TryBufferUnordered<TrySource>>>),
     Fub(FuturesUnorderedBounded<ChanFut>),
     Fu(FuturesUnordered<ChanFut>),
     Fo(FuturesOrdered<ChanFut>),
@@ -260,6 +305,9 @@ enum Subj {
 
 enum Out {
     Joined(Vec<usize>),
+    TryJoined(Result<Vec<usize>, usize>),
+    Done,
+    TryItem(Result<usize, usize>),
     Pending,
     Fut(usize),
     Item(usize, u32),
@@ -282,6 +330,19 @@ impl Subj {
             Subj::Bo(s) => match s.as_mut().poll_next(cx) {
                 Poll::Pending => Out::Pending,
                 Poll::Ready(Some(i)) => Out::Fut(i),
+                Poll::Ready(None) => Out::End,
+            },
+            Subj::Tja(s) => match Pin::new(s).poll(cx) {
+                Poll::Pending => Out::Pending,
+                Poll::Ready(r) => Out::TryJoined(r),
+            },
+            Subj::Fec(s) => match s.as_mut().poll(cx) {
+                Poll::Pending => Out::Pending,
+                Poll::Ready(()) => Out::Done,
+            },
+            Subj::Tbu(s) => match s.as_mut().poll_next(cx) {
+                Poll::Pending => Out::Pending,
+                Poll::Ready(Some(r)) => Out::TryItem(r),
                 Poll::Ready(None) => Out::End,
             },
             Subj::Ja(s) => match Pin::new(s).poll(cx) {
@@ -468,7 +529,7 @@ pub fn scenario(mode: Mode, max_threads: usize, max_children: usize) {
     COLLECTION_GONE.with(|p| p.set(false));
     EXECS.fetch_add(1, Ordering::Relaxed);
     let mut rng = thread_rng();
-    let kind = rng.gen_range(0..9usize);
+    let kind = rng.gen_range(0..12usize);
     SUBJECTS[kind].fetch_add(1, Ordering::Relaxed);
     let is_stream = kind == 3 || kind == 4;
     let n = rng.gen_range(1..=max_children);
@@ -500,6 +561,7 @@ pub fn scenario(mode: Mode, max_threads: usize, max_children: usize) {
         id: i,
         seq: 0,
     };
+    let fail_ix: Option<usize> = if rng.gen_bool(0.4) { Some(rng.gen_range(0..n)) } else { None };
     // how many children are pushed up front; the rest is pushed by the poller between polls
     let upfront = rng.gen_range(1..=n);
     let mut subj = match kind {
@@ -561,6 +623,35 @@ pub fn scenario(mode: Mode, max_threads: usize, max_children: usize) {
             Subj::Bo(Box::pin(src.buffered_ordered(lim)))
         }
         8 => Subj::Ja(join_all((0..n).map(mk_fut))),
+        9 => {
+            Subj::Tja(try_join_all((0..n).map(|i| TryFut {
+                inner: mk_fut(i),
+                fail: fail_ix == Some(i),
+            })))
+        }
+        10 => {
+            let lim = rng.gen_range(1..=n);
+            let src = FutSource {
+                futs: (0..n).map(|i| Some(mk_fut(i))).collect(),
+                next: 0,
+            };
+            Subj::Fec(Box::pin(src.for_each_concurrent(lim, UnitFut)))
+        }
+        11 => {
+            let lim = rng.gen_range(1..=n);
+            let src = TrySource {
+                futs: (0..n)
+                    .map(|i| {
+                        Some(TryFut {
+                            inner: mk_fut(i),
+                            fail: fail_ix == Some(i),
+                        })
+                    })
+                    .collect(),
+                next: 0,
+            };
+            Subj::Tbu(Box::pin(src.try_buffered_unordered(lim)))
+        }
         _ => {
             let mut s = MergeUnbounded::new();
             for i in 0..upfront {
@@ -569,7 +660,7 @@ pub fn scenario(mode: Mode, max_threads: usize, max_children: usize) {
             Subj::Mu(s)
         }
     };
-    let upfront = if matches!(kind, 3 | 6 | 7 | 8) { n } else { upfront };
+    let upfront = if matches!(kind, 3 | 6 | 7 | 8 | 9 | 10 | 11) { n } else { upfront };
 
     // per-thread op lists: each child is owned by one thread, which fires it last
     let mut per_thread: Vec<Vec<(usize, WOp)>> = vec![vec![]; n_threads];
@@ -654,6 +745,38 @@ pub fn scenario(mode: Mode, max_threads: usize, max_children: usize) {
             gate.open();
         }
         match out {
+            Out::TryJoined(r) => {
+                reg::note_order(7);
+                match (r, fail_ix) {
+                    (Ok(v), None) => assert_eq!(v, (0..n).collect::<Vec<_>>(), "C04/C07: try_join_all result"),
+                    (Err(e), Some(f)) => assert_eq!(e, f, "C07: try_join_all error"),
+                    (r, f) => panic!("C07: try_join_all answered {:?} with failing input {:?}", r.map(|v| v.len()), f),
+                }
+                break;
+            }
+            Out::Done => {
+                reg::note_order(8);
+                for (ch, _, _) in &chans {
+                    assert!(ch.st.lock().unwrap().done, "C10: for_each_concurrent completed before every future finished");
+                }
+                break;
+            }
+            Out::TryItem(r) => {
+                let i = match r {
+                    Ok(i) => {
+                        assert!(fail_ix != Some(i), "C10: failing future yielded Ok");
+                        i
+                    }
+                    Err(i) => {
+                        assert!(fail_ix == Some(i), "C10: succeeding future yielded Err");
+                        i
+                    }
+                };
+                reg::note_order(10 + i as u64);
+                assert!(!got_futs[i], "C02: output of child {} yielded twice", i);
+                got_futs[i] = true;
+                collected += 1;
+            }
             Out::Joined(v) => {
                 reg::note_order(6);
                 assert_eq!(v, (0..n).collect::<Vec<_>>(), "C04/C07: join_all result");
@@ -683,7 +806,7 @@ pub fn scenario(mode: Mode, max_threads: usize, max_children: usize) {
                     Subj::Fo(s) => s.push_back(mk_fut(pushed)),
                     Subj::Mu(s) => s.push(mk_stream(pushed)),
                     Subj::Fob(s) => s.push_back(mk_fut(pushed)),
-                    Subj::Mb(_) | Subj::Bu(_) | Subj::Bo(_) | Subj::Ja(_) => unreachable!(),
+                    Subj::Mb(_) | Subj::Bu(_) | Subj::Bo(_) | Subj::Ja(_) | Subj::Tja(_) | Subj::Fec(_) | Subj::Tbu(_) => unreachable!(),
                 }
                 pushed += 1;
                 continue;
@@ -699,7 +822,7 @@ pub fn scenario(mode: Mode, max_threads: usize, max_children: usize) {
                         Subj::Fo(s) => s.push_back(mk_fut(pushed)),
                         Subj::Mu(s) => s.push(mk_stream(pushed)),
                         Subj::Fob(s) => s.push_back(mk_fut(pushed)),
-                        Subj::Mb(_) | Subj::Bu(_) | Subj::Bo(_) | Subj::Ja(_) => unreachable!(),
+                        Subj::Mb(_) | Subj::Bu(_) | Subj::Bo(_) | Subj::Ja(_) | Subj::Tja(_) | Subj::Fec(_) | Subj::Tbu(_) => unreachable!(),
                     }
                     pushed += 1;
                     continue;
@@ -715,7 +838,7 @@ pub fn scenario(mode: Mode, max_threads: usize, max_children: usize) {
                 Subj::Fo(s) => s.push_back(mk_fut(pushed)),
                 Subj::Mu(s) => s.push(mk_stream(pushed)),
                 Subj::Fob(s) => s.push_back(mk_fut(pushed)),
-                Subj::Mb(_) | Subj::Bu(_) | Subj::Bo(_) | Subj::Ja(_) => unreachable!(),
+                Subj::Mb(_) | Subj::Bu(_) | Subj::Bo(_) | Subj::Ja(_) | Subj::Tja(_) | Subj::Fec(_) | Subj::Tbu(_) => unreachable!(),
             }
             pushed += 1;
         }
